@@ -390,6 +390,7 @@ def emit_fn(out, entry, mode, stats, canary=False):
     if mode == "decl":
         prefix += "#[verifier::external_body]\n"
     # ---- body
+    n_loops = n_closures = None
     if mode == "decl":
         edits.append((bo, last + 1, "{ unimplemented!() }", dict(kind="gen", fn=entry.id)))
     else:
@@ -568,6 +569,7 @@ def emit_fn(out, entry, mode, stats, canary=False):
                         bh -= 1
                     bl, block = b0, False
                 closures.append((i, hdr_end, bl, bh, block))
+        n_loops, n_closures = len(loops), len(closures)
         for b in entry.block("closure"):
             m = re.match(r"(\d+)\s+(.*)$", b.arg)
             if not m:
@@ -904,7 +906,8 @@ def emit_fn(out, entry, mode, stats, canary=False):
         stats.functions.append(dict(id=entry.id, mode=mode, file=entry.file, fn=entry.fn, name=(entry.fragment[1] if entry.fragment else (entry.rename or entry.fn)), container=entry.container,
                                     fragment=bool(entry.fragment),
                                     lines=[sf.line_of(toks[first_tok].start), sf.line_of(toks[last].end)],
-                                    sha256=hashlib.sha256(text.encode()).hexdigest(), own=entry.own))
+                                    sha256=hashlib.sha256(text.encode()).hexdigest(), own=entry.own,
+                                    n_loops=n_loops, n_closures=n_closures))
 
 
 def emit_item(out, spec, stats):
@@ -1036,7 +1039,25 @@ def write_unit(unit, builddir, canary=False):
     return base + ".rs", stats
 
 
+def record_shapes():
+    """contracts/shapes.json: per function under contract the number of loops and closures it has on the tree the proofs were
+    written on (a loop or closure beyond that has no invariant / contract: see tools/check.py, `reshaped`)"""
+    shapes = {}
+    for t in sorted(os.listdir(os.path.join(VERIF, "units"))):
+        if t.endswith(".rs"):
+            _, st = generate(t[:-3], False)
+            for f in st.functions:
+                if f.get("mode") == "fn" and f.get("n_loops") is not None:
+                    shapes[f["id"]] = [f["n_loops"], f["n_closures"]]
+    with open(os.path.join(VERIF, "contracts", "shapes.json"), "w") as g:
+        json.dump(shapes, g, indent=0, sort_keys=True)
+    print(len(shapes), "functions")
+
+
 if __name__ == "__main__":
+    if sys.argv[1] == "--record-shapes":
+        record_shapes()
+        sys.exit(0)
     unit = sys.argv[1]
     try:
         p, st = write_unit(unit, os.path.join(VERIF, "build"), canary="--canary" in sys.argv)
